@@ -135,13 +135,15 @@ def random_case(rng, long_stream=False):
             t = rng.choice([p[0] + floor_ms(p[1]), p[0], p[0] + 1000])
         if d >= DAY - 1 and rng.random() < 0.7:   # a day-long event ending near the grid
             t = rng.choice(grid) - floor_ms(d)
+        if t + d < 0:                             # stay inside the domain: no event ENDS before 1970 (sq_Dom;
+            d = -t                                # sqlite's open-ended read is `endtime >= 0`), found by seed 0 thorough
         evs.append([t, d, i + 1])
     edges = sorted({x for t, d, _ in evs for x in (t, t + d)} | {base, base + SEC})
     qs = []
     for _ in range(rng.choice([6, 8, 10])):
         def edge():
-            return rng.choice(edges) + rng.choice([0, 0, 1, -1, 500, -500, 999, -999, 1000, -1000, 1001, 2000,
-                                                   -2000, 3000, -3000, rng.randrange(-3000, 3001)])
+            return max(0, rng.choice(edges) + rng.choice([0, 0, 1, -1, 500, -500, 999, -999, 1000, -1000, 1001, 2000,
+                                                          -2000, 3000, -3000, rng.randrange(-3000, 3001)]))
         a, b = edge(), edge()
         k = rng.random()
         if k < 0.2:
